@@ -176,6 +176,12 @@ class Interp:
       return self._bin(ins, 'sub')
     if name == 'mul':
       return self._bin(ins, 'mul')
+    if name == 'div' and eqn is not None and np.dtype(eqn.outvars[0].aval.dtype).kind in 'iu':
+      a, b = ins
+      return a.intdiv(b) if is_sym(a) else b.intdiv(a, swap=True)
+    if name == 'rem' and eqn is not None and np.dtype(eqn.outvars[0].aval.dtype).kind in 'iu':
+      a, b = self._pair(ins) if not is_sym(ins[0]) else ins
+      return a._ew(b, lambda x, y: (int(x) % int(y)) if not (_term.isz(x) or _term.isz(y)) else _term.R(x) % _term.R(y))
     if name == 'div':
       if not is_sym(ins[1]) and np.any(np.asarray(ins[1]) == 0):
         if OPTIONS.get('div0_to_nan') and isinstance(ins[0], PolyArr):
